@@ -286,7 +286,7 @@ def run_reject(ctx, case):
 
 def run(ctx):
     rng = ctx.rng(1)
-    nrep = 250 if ctx.tier == "quick" else 1500
+    nrep = 250 if ctx.tier == "quick" else 6000
     for it in range(nrep):
         if ctx.out_of_time():
             ctx.notes.append(f"stopped at {it}")
